@@ -759,6 +759,44 @@ where
     where
         Sx2: Data<Elem = Sd::Elem>,
     {
+        #[cfg(ndarray_interp_verif)]
+        let verif_st = if crate::verif_hooks::api::enabled() {
+            Some(self.verif_describe())
+        } else {
+            None
+        };
+        #[cfg(ndarray_interp_verif)]
+        let verif_b1 = |key: String, out: &str| {
+            use crate::verif_hooks::api;
+            if let Some(st) = &verif_st {
+                api::emit(format!(
+                    "{{\"ev\":\"B1\",\"key\":\"{key}\",\"el\":\"{}\",\"x\":{},\"ds\":{},\"dv\":{},\"st\":{st},\"out\":\"{out}\"}}",
+                    api::tname::<Sd::Elem>(),
+                    api::seq(x.iter()),
+                    api::shape(data.shape()),
+                    api::seq(data.iter())
+                ));
+            }
+        };
+        #[cfg(ndarray_interp_verif)]
+        let coefficients = self.calc_coefficients(x, data);
+        #[cfg(ndarray_interp_verif)]
+        if let Err(e) = &coefficients {
+            verif_b1(
+                format!("S|failed|{:p}", data.as_ptr()),
+                match e {
+                    BuilderError::NotEnoughData(_) => "Err:NotEnoughData",
+                    BuilderError::Monotonic(_) => "Err:Monotonic",
+                    BuilderError::ShapeError(_) => "Err:ShapeError",
+                    BuilderError::ValueError(_) => "Err:ValueError",
+                },
+            );
+        }
+        #[cfg(ndarray_interp_verif)]
+        let (a, b) = coefficients?;
+        #[cfg(ndarray_interp_verif)]
+        verif_b1(format!("S|{:p}|{:p}", a.as_ptr(), b.as_ptr()), "Ok");
+        #[cfg(not(ndarray_interp_verif))]
         let (a, b) = self.calc_coefficients(x, data)?;
         let extrapolate = if !self.extrapolate {
             Extrapolate::No
@@ -768,6 +806,53 @@ where
             Extrapolate::Yes
         };
         Ok(CubicSplineStrategy { a, b, extrapolate })
+    }
+}
+
+#[cfg(ndarray_interp_verif)]
+impl<T, D> CubicSpline<T, D>
+where
+    D: Dimension,
+    T: Debug,
+{
+    /// the configuration of the strategy as JSON (call log of the verification hooks)
+    fn verif_describe(&self) -> String {
+        fn single<T: Debug>(s: &SingleBoundary<T>) -> (String, String) {
+            match s {
+                SingleBoundary::NotAKnot => ("NotAKnot".into(), String::new()),
+                SingleBoundary::Natural => ("Natural".into(), String::new()),
+                SingleBoundary::Clamped => ("Clamped".into(), String::new()),
+                SingleBoundary::FirstDeriv(v) => ("FirstDeriv".into(), format!("{v:?}")),
+                SingleBoundary::SecondDeriv(v) => ("SecondDeriv".into(), format!("{v:?}")),
+            }
+        }
+        let ex = self.extrapolate as u8;
+        match &self.boundary {
+            BoundaryCondition::NotAKnot => format!("{{\"k\":\"Spline\",\"ex\":{ex},\"bc\":\"NotAKnot\"}}"),
+            BoundaryCondition::Natural => format!("{{\"k\":\"Spline\",\"ex\":{ex},\"bc\":\"Natural\"}}"),
+            BoundaryCondition::Clamped => format!("{{\"k\":\"Spline\",\"ex\":{ex},\"bc\":\"Clamped\"}}"),
+            BoundaryCondition::Periodic => format!("{{\"k\":\"Spline\",\"ex\":{ex},\"bc\":\"Periodic\"}}"),
+            BoundaryCondition::Individual(rows) => {
+                let rs: Vec<String> = rows
+                    .iter()
+                    .map(|r| match r {
+                        RowBoundary::NotAKnot => "[\"Row\",\"NotAKnot\",\"\",\"NotAKnot\",\"\"]".to_string(),
+                        RowBoundary::Natural => "[\"Row\",\"Natural\",\"\",\"Natural\",\"\"]".to_string(),
+                        RowBoundary::Clamped => "[\"Row\",\"Clamped\",\"\",\"Clamped\",\"\"]".to_string(),
+                        RowBoundary::Mixed { left, right } => {
+                            let (lk, lv) = single(left);
+                            let (rk, rv) = single(right);
+                            format!("[\"Mixed\",\"{lk}\",\"{lv}\",\"{rk}\",\"{rv}\"]")
+                        }
+                    })
+                    .collect();
+                format!(
+                    "{{\"k\":\"Spline\",\"ex\":{ex},\"bc\":\"Individual\",\"bs\":{},\"rows\":[{}]}}",
+                    crate::verif_hooks::api::shape(rows.shape()),
+                    rs.join(",")
+                )
+            }
+        }
     }
 }
 
@@ -794,6 +879,14 @@ where
         target: ArrayViewMut<'_, <Sd>::Elem, <D as Dimension>::Smaller>,
         x: <Sx>::Elem,
     ) -> Result<(), InterpolateError> {
+        // call log (answered calls): keep the caller's view, work on a reborrow of it, describe the call at the end
+        #[cfg(ndarray_interp_verif)]
+        let mut verif_target = target;
+        #[cfg(ndarray_interp_verif)]
+        #[allow(unused_mut)]
+        let mut target = verif_target.view_mut();
+        #[cfg(ndarray_interp_verif)]
+        let (verif_key, verif_x) = (format!("S|{:p}|{:p}", self.a.as_ptr(), self.b.as_ptr()), x);
         let in_range = interp.is_in_range(x);
         if matches!(self.extrapolate, Extrapolate::No) && !in_range {
             return Err(InterpolateError::OutOfBounds(format!(
@@ -826,6 +919,8 @@ where
                     + t * y_right
                     + t * (one - t) * (a_left * (one - t) + b_left * t);
             });
+        #[cfg(ndarray_interp_verif)]
+        crate::verif_hooks::api::query1(&verif_key, &verif_x, Some(&verif_target));
         Ok(())
     }
 }
